@@ -1,5 +1,5 @@
 import Ark.Model.Msm
-import Ark.Proofs.LimbsA
+import Ark.Proofs.Limbs
 import Mathlib.Algebra.BigOperators.Group.List.Basic
 import Mathlib.Tactic.Abel
 /-
@@ -92,11 +92,35 @@ theorem msmSumNat_unzip (l : List (G × Nat)) : msmSumNat (l.map (·.1)) (l.map 
   | nil => simp
   | cons a l ih => simp [ih]
 
-/-! ### `into_bigint` -/
+/-! ### `into_bigint`
+  (`toLimbs` facts are re-proved here under local names: `LimbsA` and `LimbsB` cannot be imported together,
+  and part A imports `LimbsB`) -/
+
+theorem toLimbs_value_B (n v : Nat) : value (toLimbs n v) = v % B ^ n := by
+  induction n generalizing v with
+  | zero => simp [toLimbs, value, Nat.mod_one]
+  | succ n ih =>
+    simp only [toLimbs, value, ih]
+    rw [Nat.pow_succ, Nat.mul_comm (B ^ n) B, Nat.mod_mul, Nat.add_comm]
+
+theorem toLimbs_wf_B (n v : Nat) : WF (toLimbs n v) := by
+  induction n generalizing v with
+  | zero => simp [toLimbs, WF]
+  | succ n ih =>
+    intro l hl
+    simp only [toLimbs, List.mem_cons] at hl
+    rcases hl with rfl | hl
+    · exact Nat.mod_lt _ B_pos
+    · exact ih _ l hl
+
+theorem toLimbs_length_B (n v : Nat) : (toLimbs n v).length = n := by
+  induction n generalizing v with
+  | zero => simp [toLimbs]
+  | succ n ih => simp [toLimbs, ih]
 
 theorem value_intoBigint (cfg : Cfg) (k : Nat) (h : k < B ^ cfg.limbs) :
     value (cfg.intoBigint k) = k := by
-  unfold Cfg.intoBigint; rw [toLimbs_value, Nat.mod_eq_of_lt h]
+  unfold Cfg.intoBigint; rw [toLimbs_value_B, Nat.mod_eq_of_lt h]
 
 theorem msmSum_map_intoBigint (cfg : Cfg) (bases : List G) (ks : List Nat)
     (h : ∀ k ∈ ks, k < B ^ cfg.limbs) :
@@ -135,7 +159,7 @@ theorem getLastD_toLimbs (n v d : Nat) : (toLimbs (n + 1) v).getLastD d = v / B 
 /-- a scalar-field element `k < r` is in the scalar domain of `msm_bigint` (for `r < 2^(64N)`, `N > 0`) -/
 theorem inRange_intoBigint (cfg : Cfg) (hN : 0 < cfg.limbs) (hr : cfg.r < B ^ cfg.limbs) (k : Nat)
     (hk : k < cfg.r) : InRange cfg (cfg.intoBigint k) := by
-  refine ⟨toLimbs_length _ _, toLimbs_wf _ _, ?_⟩
+  refine ⟨toLimbs_length_B _ _, toLimbs_wf_B _ _, ?_⟩
   rw [value_intoBigint cfg k (by omega)]
   refine lt_trans hk ?_
   unfold Cfg.numBits
